@@ -237,20 +237,21 @@ def run_cases(ctx, np, items, timeout=300, chunk=400):
     return results
 
 
-def run_all(ctx, cases, tokens_of, np_of, timeout=300, chunk=400, risky=None):
+def run_all(ctx, cases, tokens_of, np_of, timeout=300, chunk=400, risky=None, chunk_for=None):
     """cases: list of dicts (each gets an "id"). Groups them by world size, runs them, returns {id: result}.
-    risky(case) -> True puts the case in a run of its own (a crash then costs one run only)."""
+    risky(case) -> True puts the case in a run of its own (a crash then costs one run only); chunk_for(case) -> cases per smpirun."""
     by_np = {}
     for i, c in enumerate(cases):
         c["id"] = i
-        by_np.setdefault(np_of(c), []).append(c)
+        by_np.setdefault((np_of(c), chunk_for(c) if chunk_for else chunk), []).append(c)
     results = {}
     t0 = time.time()
-    for np in sorted(by_np):
-        normal = [(c["id"], "%d %s" % (c["id"], tokens_of(c))) for c in by_np[np] if not (risky and risky(c))]
-        solo = [(c["id"], "%d %s" % (c["id"], tokens_of(c))) for c in by_np[np] if risky and risky(c)]
+    for np, ch in sorted(by_np):
+        group = by_np[(np, ch)]
+        normal = [(c["id"], "%d %s" % (c["id"], tokens_of(c))) for c in group if not (risky and risky(c))]
+        solo = [(c["id"], "%d %s" % (c["id"], tokens_of(c))) for c in group if risky and risky(c)]
         if normal:
-            results.update(run_cases(ctx, np, normal, timeout=timeout, chunk=chunk))
+            results.update(run_cases(ctx, np, normal, timeout=timeout, chunk=ch))
         if solo:
             results.update(run_cases(ctx, np, solo, timeout=timeout, chunk=1))
     with _lock:
